@@ -255,6 +255,18 @@ Section Glue64.
       do 2 eexists. split; [reflexivity|split; [reflexivity|exact W3]].
   Qed.
 
+  (** the same statement on the descriptor / row themselves (used by the float
+      tables, which are not part of [vdesc_of] / [vrow_of]) *)
+  Theorem vglue64_core : exists s1 s2, run_d d st i = Some s1 /\ run_r r st i = Some s2 /\ state_eq s1 s2.
+  Proof.
+    unfold run_d, run_r.
+    destruct g6_loop as (s' & HL & HS & HV). rewrite HL, g6_ok. cbn [negb].
+    destruct g6_mask as [HM HMr]. rewrite HM.
+    destruct (g6_st1 s' HS HV) as (st1 & E1 & Heq).
+    fold spec_st1_64. rewrite E1. cbn [obind].
+    exact (g6_finish s' st1 _ HMr Heq).
+  Qed.
+
   Theorem vglue64 : agree_v a st i.
   Proof.
     unfold agree_v. rewrite (exec_vector_eq a st i Hnr), (exec_spec_v_eq a st i Hnr).
